@@ -55,6 +55,10 @@ pub enum IdEdit {
     /// one bit flipped in the signature field of a transaction that the block producer makes (fee,
     /// rebroadcast, issuance): nothing verifies that field
     ProducerTxSig(u16, u8),
+    /// the stated creator signs the header with an all-zero transaction commitment (a creator who
+    /// leaves the field for the receiver to fill in); with a non-zero selector two transactions are
+    /// swapped afterwards. A header that commits to nothing must never make an acceptable block
+    ZeroRootSigned(u16),
     /// control: no edit at all (must be accepted)
     Identity,
 }
@@ -257,6 +261,16 @@ fn apply(orig: &Block, e: &IdEdit) -> Option<(Block, bool, bool)> {
                 h.sig = sig_twin(&h.sig);
             }
         }
+        IdEdit::ZeroRootSigned(sel) => {
+            let creator = (0u8..8).map(key).find(|k| k.0 == b.creator)?;
+            b.merkle_root = [0; 32];
+            b.generate_pre_hash();
+            b.sign(&creator.1);
+            if *sel % 2 == 1 && n >= 2 {
+                let i = pick(*sel, n - 1);
+                b.transactions.swap(i, i + 1);
+            }
+        }
         IdEdit::ProducerTxSig(s, bit) => {
             use saito_core::core::consensus::transaction::TransactionType as T;
             let made: Vec<usize> = b.transactions.iter().enumerate().filter(|(_, t)| matches!(t.transaction_type, T::Fee | T::ATR | T::Issuance)).map(|(i, _)| i).collect();
@@ -310,6 +324,12 @@ fn apply(orig: &Block, e: &IdEdit) -> Option<(Block, bool, bool)> {
             resigned = true;
         }
         IdEdit::Identity => {}
+    }
+    if matches!(e, IdEdit::ZeroRootSigned(_)) {
+        // handed to add_block as parsed (add_block derives hashes itself), the way a block read
+        // back from a file or from a buffer is
+        let e2 = Block::deserialize_from_net(&b.serialize_for_net(BlockType::Full)).ok()?;
+        return Some((e2, false, true));
     }
     // across the wire once more
     let mut e2 = Block::deserialize_from_net(&b.serialize_for_net(BlockType::Full)).ok()?;
@@ -677,6 +697,7 @@ pub fn arb_edit() -> impl Strategy<Value = IdEdit> {
         any::<u16>().prop_map(IdEdit::DropLastHop),
         (any::<u16>(), any::<u8>()).prop_map(|(s, w)| IdEdit::SigTwin(s, w)),
         (any::<u16>(), any::<u8>()).prop_map(|(s, w)| IdEdit::ProducerTxSig(s, w)),
+        any::<u16>().prop_map(IdEdit::ZeroRootSigned),
         (0u8..SIGNED_FIELDS as u8).prop_map(IdEdit::HeaderSigned),
         (0u8..UNSIGNED_FIELDS as u8).prop_map(IdEdit::HeaderUnsigned),
         any::<u16>().prop_map(IdEdit::MerkleOfEdited),
@@ -704,7 +725,7 @@ pub fn arb_case(max_blocks: usize) -> impl Strategy<Value = Case> {
 }
 
 pub fn run(ctx: &mut Ctx) {
-    ctx.rule = "a valid block B (usually >= 2 transactions; golden ticket, fee and rebroadcast transactions included) at the tip of a generated honest history (gp 4..100, before/after the window wraps) and 6..14 edits from {remove, duplicate, swap, add, replace a transaction; mutate a transaction's amount / payload / timestamp; change one of 14 signed header fields without re-signing; change one of 12 unsigned header fields; edit the list and set the merkle root accordingly without re-signing; zero the merkle root; flip a signature bit; replace a user transaction's or a routing hop's signature by its twin (r, n - s); flip a bit in the signature field of a producer-made (fee / rebroadcast / issuance) transaction; change the creator with and without re-signing; insert a slip-less transaction of type SPV/Normal/ATR/Vip with txs_replacements in {0,1,2,7}; change txs_replacements; re-point an input to another output of the same owner with equal amount, slip index and type}; each edited block crosses the wire format and is offered to a replica holding the chain up to B's parent, to a node that joined mid-chain and holds only B's parent, and (the genesis block) to an empty node; plus directed histories in which the payer owns twin outputs. oracle: same hash and different transaction list => not accepted; any edit not re-signed by the stated creator (and touching transactions or signed fields) => not accepted; re-signed by another creator => different hash; the unedited round-tripped B => accepted. evaluations = edited blocks offered. non-trivial = edit changes the transaction list or a signed header field; distinct = (edit kind, tx-count bucket, state class, history bucket)".into();
+    ctx.rule = "a valid block B (usually >= 2 transactions; golden ticket, fee and rebroadcast transactions included) at the tip of a generated honest history (gp 4..100, before/after the window wraps) and 6..14 edits from {remove, duplicate, swap, add, replace a transaction; mutate a transaction's amount / payload / timestamp; change one of 14 signed header fields without re-signing; change one of 12 unsigned header fields; edit the list and set the merkle root accordingly without re-signing; zero the merkle root; flip a signature bit; replace a user transaction's or a routing hop's signature by its twin (r, n - s); flip a bit in the signature field of a producer-made (fee / rebroadcast / issuance) transaction; a header with an all-zero commitment signed by the creator itself, with and without a swap of two transactions; change the creator with and without re-signing; insert a slip-less transaction of type SPV/Normal/ATR/Vip with txs_replacements in {0,1,2,7}; change txs_replacements; re-point an input to another output of the same owner with equal amount, slip index and type}; each edited block crosses the wire format and is offered to a replica holding the chain up to B's parent, to a node that joined mid-chain and holds only B's parent, and (the genesis block) to an empty node; plus directed histories in which the payer owns twin outputs. oracle: same hash and different transaction list => not accepted; any edit not re-signed by the stated creator (and touching transactions or signed fields) => not accepted; re-signed by another creator => different hash; the unedited round-tripped B => accepted. evaluations = edited blocks offered. non-trivial = edit changes the transaction list or a signed header field; distinct = (edit kind, tx-count bucket, state class, history bucket)".into();
     // directed: the payer owns two outputs that differ only in the transaction that created them
     // (two equal issuance entries), so that an input can be re-pointed from one to the other
     for (n_blocks, payer) in [(1usize, 0u8), (3, 0), (3, 1), (5, 1)] {
